@@ -127,7 +127,7 @@ func runC07(rc *RunCtx) {
 	rc.Quietly(func() { m.User.Fund("A", 255) })
 	if random {
 		// prior history
-		rc.S.Policy = 1
+		rc.S.Policy = 1 + T.Choose("cfg.policy", 2)
 		n := T.Choose("prior.n", 5)
 		for i := 0; i < n; i++ {
 			m.step = i
